@@ -375,3 +375,42 @@ fn c01_os2_any_bytes() {
     kani::cover!(matches!(&r, Ok(t) if t.version5.is_some()), "version 5 parsed");
     std::mem::forget(r);
 }
+
+/// Outline of a simple glyph whose endPtsOfContours array is hostile (duplicate,
+/// decreasing or out-of-range end points): drawing it must not panic.
+// @funcs GlyfTable::visit, SimpleGlyph::contours, glyf::outline::contour::Contour::new
+// @bound simple glyph with 2 points and 2 contours whose end points are any u16 values; on/off flags symbolic
+#[kani::proof]
+#[kani::unwind(18)]
+fn c01_glyf_hostile_end_points() {
+    use allsorts::outline::{OutlineBuilder, OutlineSink};
+    use allsorts::tables::glyf::{BoundingBox, GlyfRecord, Glyph, Point, SimpleGlyph, SimpleGlyphFlag};
+    use pathfinder_geometry::line_segment::LineSegment2F;
+    use pathfinder_geometry::vector::Vector2F;
+    struct Null(u32);
+    impl OutlineSink for Null {
+        fn move_to(&mut self, _to: Vector2F) {
+            self.0 += 1;
+        }
+        fn line_to(&mut self, _to: Vector2F) {}
+        fn quadratic_curve_to(&mut self, _c: Vector2F, _to: Vector2F) {}
+        fn cubic_curve_to(&mut self, _c: LineSegment2F, _to: Vector2F) {}
+        fn close(&mut self) {}
+    }
+    let e0: u16 = kani::any();
+    let e1: u16 = kani::any();
+    let f = |on: bool| if on { SimpleGlyphFlag::ON_CURVE_POINT } else { SimpleGlyphFlag::empty() };
+    let glyph = SimpleGlyph {
+        bounding_box: BoundingBox { x_min: 0, x_max: 0, y_min: 0, y_max: 0 },
+        end_pts_of_contours: vec![e0, e1],
+        instructions: &[],
+        coordinates: vec![(f(kani::any()), Point(0, 0)), (f(kani::any()), Point(10, 20))],
+        phantom_points: None,
+    };
+    let mut table = GlyfTable::new(vec![GlyfRecord::Parsed(Glyph::Simple(glyph))]).unwrap();
+    let mut sink = Null(0);
+    let r = table.visit(0, &mut sink);
+    kani::cover!(r.is_ok() && sink.0 == 2, "two contours drawn");
+    kani::cover!(e1 <= e0, "non-increasing end points");
+    std::mem::forget(table);
+}
